@@ -793,6 +793,22 @@ func (m *machine) resolveModel(p *mprom, reject bool, like *mprom) {
 	}
 }
 
+// drainLate waits for the calls that were waiting for a pending Fulfill/Reject/Join which is now through: they run on
+// their own goroutines, and the script must not go on (e.g. release the clients they use) before they have been made.
+func (m *machine) drainLate() error {
+	for _, c := range m.late {
+		if c.prom == nil || pendingChain(c.prom) {
+			continue
+		}
+		select {
+		case <-c.done:
+		case <-time.After(deadline):
+			return pbt.Fail("hang/late-call", "call %d, issued while a resolution was pending, did not complete although that resolution is through\n%s", c.id, pbt.Stacks("capnp/v3."))
+		}
+	}
+	return nil
+}
+
 func (m *machine) finish(c *mcall) error {
 	c.open = false
 	if c.caller != nil {
@@ -839,6 +855,9 @@ func (m *machine) finish(c *mcall) error {
 				}
 			}
 		}
+	}
+	if err := m.drainLate(); err != nil {
+		return err
 	}
 	return m.checkCall(c)
 }
